@@ -1979,18 +1979,26 @@ package mcp
 //@   nopanic
 //@   modifies *
 //@ func (*CallToolResult).UnmarshalJSON [C19]
+//@   track encoding/json.Unmarshal as stdDecCS
+//@   ensures @peer-data-is-decoded-case-sensitively calls(stdDecCS) == 0
 //@   nopanic
 //@   requires x != nil   // encoding/json calls UnmarshalJSON on an allocated value
 //@   modifies *
 //@ func (*CompleteReference).UnmarshalJSON [C19]
+//@   track encoding/json.Unmarshal as stdDecCS
+//@   ensures @peer-data-is-decoded-case-sensitively calls(stdDecCS) == 0
 //@   nopanic
 //@   requires r != nil   // encoding/json calls UnmarshalJSON on an allocated value
 //@   modifies *
 //@ func (*SamplingMessageV2).UnmarshalJSON [C19]
+//@   track encoding/json.Unmarshal as stdDecCS
+//@   ensures @peer-data-is-decoded-case-sensitively calls(stdDecCS) == 0
 //@   nopanic
 //@   requires m != nil   // encoding/json calls UnmarshalJSON on an allocated value
 //@   modifies *
 //@ func (*CreateMessageResult).UnmarshalJSON [C19]
+//@   track encoding/json.Unmarshal as stdDecCS
+//@   ensures @peer-data-is-decoded-case-sensitively calls(stdDecCS) == 0
 //@   nopanic
 //@   requires r != nil   // encoding/json calls UnmarshalJSON on an allocated value
 //@   modifies *
@@ -2008,22 +2016,32 @@ package mcp
 //@   ensures @every-member-is-carried-over result != nil && result.Meta == r.Meta && result.Model == r.Model && result.Role == r.Role && result.StopReason == r.StopReason
 //@   ensures @the-block-becomes-a-one-element-list (r.Content != nil ==> len(result.Content) == 1 && result.Content[0] == r.Content) && (r.Content == nil ==> len(result.Content) == 0)
 //@ func (*CreateMessageWithToolsResult).UnmarshalJSON [C19]
+//@   track encoding/json.Unmarshal as stdDecCS
+//@   ensures @peer-data-is-decoded-case-sensitively calls(stdDecCS) == 0
 //@   nopanic
 //@   requires r != nil   // encoding/json calls UnmarshalJSON on an allocated value
 //@   modifies *
 //@ func (*GetPromptResult).UnmarshalJSON [C19]
+//@   track encoding/json.Unmarshal as stdDecCS
+//@   ensures @peer-data-is-decoded-case-sensitively calls(stdDecCS) == 0
 //@   nopanic
 //@   requires x != nil   // encoding/json calls UnmarshalJSON on an allocated value
 //@   modifies *
 //@ func (*PromptMessage).UnmarshalJSON [C19]
+//@   track encoding/json.Unmarshal as stdDecCS
+//@   ensures @peer-data-is-decoded-case-sensitively calls(stdDecCS) == 0
 //@   nopanic
 //@   requires m != nil   // encoding/json calls UnmarshalJSON on an allocated value
 //@   modifies *
 //@ func (*ReadResourceResult).UnmarshalJSON [C19]
+//@   track encoding/json.Unmarshal as stdDecCS
+//@   ensures @peer-data-is-decoded-case-sensitively calls(stdDecCS) == 0
 //@   nopanic
 //@   requires x != nil   // encoding/json calls UnmarshalJSON on an allocated value
 //@   modifies *
 //@ func (*SamplingMessage).UnmarshalJSON [C19]
+//@   track encoding/json.Unmarshal as stdDecCS
+//@   ensures @peer-data-is-decoded-case-sensitively calls(stdDecCS) == 0
 //@   nopanic
 //@   requires m != nil   // encoding/json calls UnmarshalJSON on an allocated value
 //@   modifies *
